@@ -107,6 +107,10 @@ def unary_probes():
         P.append((f + ":keys", ("arrcomp", idx(V("kv"), "key"), [("for", "kv", STD(f, o))])))
         P.append((f + ":fieldsOfEntries", ("arrcomp", STD("objectFieldsAll", V("kv")), [("for", "kv", STD(f, o))])))
         P.append((f, STD(f, o)))
+        for i in (0, 1):
+            # indexing (not iterating) the key-value view: the entry's key does not need the field's value
+            P.append(("%s:index%d-key" % (f, i), ("local", [("bind", "v", STD(f, o))],
+                                                 ("if", ("bin", ">", STD("length", V("v")), N(i)), idx(at(V("v"), i), "key"), S("none")))))
     for f in ("objectValues", "objectValuesAll"):
         P.append((f, STD(f, o)))
         for i in (0, 1):
